@@ -348,9 +348,9 @@ class MgmComputation(VariableComputation):
                 self.logger.debug(
                     f"Received values from all neighbors : {self._neighbors_values}"
                 )
-            # Compute the current_cost on the first step (initialization) of
-            # the algorithm
-            if self.current_cost is None:
+            # Compute the current_cost at every cycle: it depends on the values
+            # of our neighbors, which may have changed during the last cycle.
+            if True:
                 reduced_cs = []
                 concerned_vars = set()
                 cost = 0
@@ -372,10 +372,14 @@ class MgmComputation(VariableComputation):
                 self.value_selection(self.current_value, cost)
 
             new_values, val_cost = self._compute_best_value()
-            self._gain = self.current_cost - val_cost
-            if ((self._mode == "min") & (self._gain > 0)) or (
-                (self._mode == "max") & (self._gain < 0)
-            ):
+            # The gain is the improvement we could achieve: it is positive
+            # when moving is beneficial, both when minimizing and maximizing.
+            if self._mode == "min":
+                self._gain = self.current_cost - val_cost
+            else:
+                self._gain = val_cost - self.current_cost
+            self._new_cost = val_cost
+            if self._gain > 0:
                 self._new_value = random.choice(new_values)
             else:
                 self._new_value = self.current_value
@@ -460,13 +464,15 @@ class MgmComputation(VariableComputation):
             concerned_vars.update(c.dimensions)
         var_val, rel_val = find_arg_optimal(
             self.variable,
-            lambda x: functools.reduce(operator.add, [f(x) for f in reduced_cs]),
+            lambda x: functools.reduce(operator.add, [f(x) for f in reduced_cs])
+            + self.variable.cost_for_val(x),
             self._mode,
         )
-        # Add the cost for each variable value if any
+        # Add the cost for each neighbor value if any (the cost of our own
+        # value is part of what we optimize)
         for var in concerned_vars:
             if var.name == self.name:
-                rel_val += var.cost_for_val(self.current_value)
+                continue
             else:
                 rel_val += var.cost_for_val(self._neighbors_values[var.name])
 
@@ -521,7 +527,7 @@ class MgmComputation(VariableComputation):
                         f"Selects new value {self._new_value}, "
                         f"best gain: {self._gain} > {gains}"
                     )
-                self.value_selection(self._new_value, self.current_cost - self._gain)
+                self.value_selection(self._new_value, self._new_cost)
             elif self._gain == max_neighbors:
                 # same gain, break ties through variable ordering to
                 # determine which variable can change its value
@@ -560,7 +566,7 @@ class MgmComputation(VariableComputation):
                         f"Won random ties for equal gain {self._gain} , "
                         f"selects new value {self._new_value} - {ties}"
                     )
-                self.value_selection(self._new_value, self.current_cost - self._gain)
+                self.value_selection(self._new_value, self._new_cost)
             else:
                 if self.logger.isEnabledFor(logging.INFO):
                     self.logger.info(
@@ -582,7 +588,7 @@ class MgmComputation(VariableComputation):
                         f"Won lexic ties for equal gain {self._gain} , "
                         f"selects new value {self._new_value} - {ties}"
                     )
-                self.value_selection(self._new_value, self.current_cost - self._gain)
+                self.value_selection(self._new_value, self._new_cost)
             else:
                 if self.logger.isEnabledFor(logging.INFO):
                     self.logger.info(
